@@ -450,7 +450,7 @@ func c11Atoms() []St {
 		}
 	}
 	for _, sel := range c11Sels {
-		for _, pat := range []string{"a*", "*", "b"} {
+		for _, pat := range []string{"a*", "*", "b", "a*a", "a*b", `a\*`} {
 			r = append(r, St{Op: "like", Sel: sel, Lit: pat})
 		}
 	}
@@ -465,8 +465,8 @@ func c11AtomSub() *engine.Sub {
 	}
 	return &engine.Sub{
 		Name: "atoms-truth",
-		Rule: "every comparison atom (5 operators x 6 selectors x 9 literals) and like atom (6 selectors x 3 patterns) as a top-level statement, on every datum {a in 18 values, b in 3, l in 2}: if the selector resolves, Match = PartialMatch = classical truth (same-kind numbers only; NaN/Inf ordering and == on NaN are don't-care); if required data is missing Match=false and PartialMatch=true; if optional data is missing both are true; non-trivial = selector resolves",
-		Bound: func(string) string { return fmt.Sprintf("288 atoms x %d data", len(data)) },
+		Rule: "every comparison atom (5 operators x 6 selectors x 9 literals) and like atom (6 selectors x 6 patterns) as a top-level statement, on every datum {a in 18 values, b in 3, l in 2}: if the selector resolves, Match = PartialMatch = classical truth (same-kind numbers only; NaN/Inf ordering and == on NaN are don't-care); if required data is missing Match=false and PartialMatch=true; if optional data is missing both are true; non-trivial = selector resolves",
+		Bound: func(string) string { return fmt.Sprintf("306 atoms x %d data", len(data)) },
 		Gen: func(tier string, emit func(any) bool) {
 			for _, a := range c11Atoms() {
 				if !emit(&c11Case{S: a}) {
